@@ -150,6 +150,8 @@ def deterministic_class(prog):
     for t in prog['tasks']:
         if t.get('join') is None and rc[t['name']] > 1:
             return False        # a non-join task activated more than once: outside the statement's class
+    if conflicting_publishes(prog):
+        return False            # "parallel branches do not publish conflicting values"
     for t in prog['tasks']:
         for cl in ('on_success', 'on_error', 'on_complete'):
             for r in t.get(cl) or []:
@@ -161,6 +163,36 @@ def deterministic_class(prog):
             if r['to'] in wfgen.ENGINE_CMDS:
                 return False
     return True
+
+
+def conflicting_publishes(prog):
+    """two tasks that are not causally ordered publish the same variable"""
+    succ = {t['name']: set(n for n in wfgen.out_names(prog, t)) for t in prog['tasks']}
+    desc = {}
+
+    def reach(n):
+        if n in desc:
+            return desc[n]
+        desc[n] = set()
+        acc = set()
+        for m in succ.get(n, ()):
+            if m in succ:
+                acc.add(m)
+                acc |= reach(m)
+        desc[n] = acc
+        return acc
+    pubs = {}
+    for t in prog['tasks']:
+        keys = set((t.get('publish') or {}).keys()) | set((t.get('publish_on_error') or {}).keys())
+        for k in keys:
+            pubs.setdefault(k, []).append(t['name'])
+    for k, ts in pubs.items():
+        for i in range(len(ts)):
+            for j in range(i + 1, len(ts)):
+                a, b = ts[i], ts[j]
+                if b not in reach(a) and a not in reach(b):
+                    return True
+    return False
 
 
 def run_chunk(ctx, n_programs, props, mode='plain', gen_kw=None):
